@@ -354,7 +354,11 @@ LITERAL_TEXTS = [
     ('TRUE', True), ('true', True), ('True', True), ('FALSE', False), ('false', False), ('fAlSe', False),
     ('0', 0), ('1', 1), ('42', 42), ('007', 7), ('00', 0), ('1234567890123456789012', 1234567890123456789012),
     ('1.', D('1')), ('.5', D('0.5')), ('1.50', D('1.50')), ('0.0', D('0.0')), ('00.10', D('0.10')),
-    ('123.456', D('123.456')), ('.0', D('0.0')), ('0.', D('0')), ('10.', D('10')), ('.000001', D('0.000001')),
+    ('123.456', D('123.456')),
+    # more digits than the default decimal context keeps (28): a literal is the number as written
+    ('1.0000000000000000000000000001', D('1.0000000000000000000000000001')), ('1.00000000000000000000000000000000000001', D('1.00000000000000000000000000000000000001')),
+    ('123456789012345678901234567890.5', D('123456789012345678901234567890.5')), ('99999999999999999999999999999.99', D('99999999999999999999999999999.99')),
+    ('.0000000000000000000000000000000000012345', D('0.0000000000000000000000000000000000012345')), ('.0', D('0.0')), ('0.', D('0')), ('10.', D('10')), ('.000001', D('0.000001')),
     ('2020-01-01', DATE(2020, 1, 1)), ('2020-02-29', DATE(2020, 2, 29)), ('2019-12-31', DATE(2019, 12, 31)),
     ('2021-04-30', DATE(2021, 4, 30)), ('2000-02-29', DATE(2000, 2, 29)), ('1900-02-28', DATE(1900, 2, 28)),
     ('0001-01-01', DATE(1, 1, 1)), ('9999-12-31', DATE(9999, 12, 31)), ('2021-01-31', DATE(2021, 1, 31)),
